@@ -120,6 +120,109 @@ Proof.
   pose proof (int_loop_phase _ _ _ _ L) as P. change (int_phase ist0) with 0%nat in P. intros _. lia.
 Qed.
 
+(** the converse: the loop accepts nothing but the grammar.  One inversion lemma per state of the loop. *)
+Lemma int_step_noval signed_ neg sg m b t st' : int_step signed_ (mk_ist None neg sg m b) t = Some st' ->
+  (is_value_tok t = true /\ st' = mk_ist (Some (ttext t)) neg sg m b) \/
+  (sg = false /\ signed_ = true /\ is_punct_char t 45 = true /\ st' = mk_ist None true true m b) \/
+  (sg = false /\ signed_ = true /\ is_punct_char t 45 = false /\ is_punct_char t 43 = true /\ st' = mk_ist None neg true m b).
+Proof.
+  destruct t as [k x]. unfold int_step, is_value_tok, is_punct_char, is_char. cbn [tk ttext i_val i_neg i_sign i_marked i_base].
+  destruct k; try discriminate.
+  - intros H. inversion H. left. auto.
+  - intros H. inversion H. left. auto.
+  - destruct sg; cbn [negb andb]; [discriminate|]. destruct (text_eqb x [45]).
+    + destruct signed_; [|discriminate]. intros H. inversion H. right. left. auto.
+    + destruct (text_eqb x [43]); [|discriminate]. destruct signed_; [|discriminate]. intros H. inversion H. right. right. auto.
+Qed.
+
+Lemma int_step_val signed_ v neg sg t st' : int_step signed_ (mk_ist (Some v) neg sg false None) t = Some st' ->
+  is_base_tok t = true /\ st' = mk_ist (Some v) neg sg true None.
+Proof.
+  destruct t as [k x]. unfold int_step, is_base_tok. cbn [tk ttext i_val i_neg i_sign i_marked i_base negb andb].
+  destruct k; try discriminate. destruct (text_eqb x t_base); [|discriminate]. intros H. inversion H. auto.
+Qed.
+
+Lemma int_step_marked signed_ v neg sg t st' : int_step signed_ (mk_ist (Some v) neg sg true None) t = Some st' ->
+  is_lit_tok t = true /\ st' = mk_ist (Some v) neg sg true (Some (ttext t)).
+Proof.
+  destruct t as [k x]. unfold int_step, is_lit_tok. cbn [tk ttext i_val i_neg i_sign i_marked i_base negb andb].
+  destruct k; try discriminate. intros H. inversion H. auto.
+Qed.
+
+Lemma int_step_done signed_ v neg sg m b t : int_step signed_ (mk_ist (Some v) neg sg m (Some b)) t = None.
+Proof. destruct t as [k x]. unfold int_step. cbn [tk ttext i_val i_base]. destruct k; reflexivity. Qed.
+
+Definition int_finish (st : ist) : option (bool * list Z * option (list Z)) :=
+  match i_val st with
+  | None => None
+  | Some v => match i_base st with
+              | Some b => Some (i_neg st, v, Some b)
+              | None => if i_marked st then None else Some (i_neg st, v, None)
+              end
+  end.
+
+(** from the digits on *)
+Lemma int_body_complete signed_ neg sg body st' r :
+  match body with t :: _ => is_value_tok t = true | [] => True end ->
+  int_loop signed_ (mk_ist None neg sg false None) body = Some st' -> int_finish st' = Some r ->
+  match int_body_spec body with Some (v, b) => Some (neg, v, b) | None => None end = Some r.
+Proof.
+  intros Hv L F. destruct body as [|t1 rest].
+  - cbn [int_loop] in L. inversion L; subst st'. discriminate.
+  - cbn [int_loop] in L. destruct (int_step signed_ (mk_ist None neg sg false None) t1) as [s1|] eqn:E1; [|discriminate].
+    destruct (int_step_noval _ _ _ _ _ _ _ E1) as [[V1 ->]|[(_ & _ & P & _)|(_ & _ & _ & P & _)]].
+    2,3: (apply punct_inv in P; subst t1; discriminate).
+    destruct rest as [|t2 rest].
+    + cbn [int_loop] in L. inversion L; subst st'. cbn in F. unfold int_body_spec. rewrite V1. exact F.
+    + cbn [int_loop] in L. destruct (int_step signed_ (mk_ist (Some (ttext t1)) neg sg false None) t2) as [s2|] eqn:E2; [|discriminate].
+      destruct (int_step_val _ _ _ _ _ _ E2) as [B2 ->].
+      destruct rest as [|t3 rest].
+      * cbn [int_loop] in L. inversion L; subst st'. discriminate.
+      * cbn [int_loop] in L. destruct (int_step signed_ (mk_ist (Some (ttext t1)) neg sg true None) t3) as [s3|] eqn:E3; [|discriminate].
+        destruct (int_step_marked _ _ _ _ _ _ E3) as [L3 ->].
+        destruct rest as [|t4 rest].
+        -- cbn [int_loop] in L. inversion L; subst st'. cbn in F. unfold int_body_spec. rewrite V1, B2, L3. exact F.
+        -- cbn [int_loop] in L. rewrite int_step_done in L. discriminate.
+Qed.
+
+Theorem int_tokens_asis_complete signed_ ts r :
+  int_tokens_asis signed_ ts = Some r -> int_tokens_spec signed_ ts = Some r.
+Proof.
+  change (int_tokens_asis signed_ ts) with (match int_loop signed_ ist0 ts with Some st => int_finish st | None => None end).
+  destruct (int_loop signed_ ist0 ts) as [st|] eqn:L; [|discriminate]. intros F. unfold ist0 in L.
+  destruct ts as [|t rest].
+  - cbn [int_loop] in L. inversion L; subst st. discriminate.
+  - unfold int_tokens_spec. cbn [int_loop] in L.
+    destruct (int_step signed_ (mk_ist None false false false None) t) as [s1|] eqn:E1; [|discriminate].
+    destruct (int_step_noval _ _ _ _ _ _ _ E1) as [[V1 E]|[(_ & Sg & P & E)|(_ & Sg & P45 & P & E)]]; subst s1.
+    + (* no sign: the first token is the digits *)
+      assert (N45 : is_punct_char t 45 = false) by (destruct t as [[] x]; cbn in V1 |- *; try discriminate; reflexivity).
+      assert (N43 : is_punct_char t 43 = false) by (destruct t as [[] x]; cbn in V1 |- *; try discriminate; reflexivity).
+      rewrite N45, N43. apply (int_body_complete signed_ false false (t :: rest) st r V1); [|exact F].
+      cbn [int_loop]. rewrite E1. exact L.
+    + rewrite P, Sg. destruct rest as [|t2 rest2].
+      * cbn [int_loop] in L. inversion L; subst st. discriminate.
+      * assert (V2 : is_value_tok t2 = true).
+        { cbn [int_loop] in L. destruct (int_step signed_ (mk_ist None true true false None) t2) as [s2|] eqn:E2; [|discriminate].
+          destruct (int_step_noval _ _ _ _ _ _ _ E2) as [[V _]|[(A & _)|(A & _)]]; [exact V | discriminate | discriminate]. }
+        apply (int_body_complete signed_ true true (t2 :: rest2) st r V2 L F).
+    + rewrite P45, P, Sg. destruct rest as [|t2 rest2].
+      * cbn [int_loop] in L. inversion L; subst st. discriminate.
+      * assert (V2 : is_value_tok t2 = true).
+        { cbn [int_loop] in L. destruct (int_step signed_ (mk_ist None false true false None) t2) as [s2|] eqn:E2; [|discriminate].
+          destruct (int_step_noval _ _ _ _ _ _ _ E2) as [[V _]|[(A & _)|(A & _)]]; [exact V | discriminate | discriminate]. }
+        apply (int_body_complete signed_ false true (t2 :: rest2) st r V2 L F).
+Qed.
+
+(** the repaired loop of parse_integer_with_error accepts exactly the literal grammar *)
+Theorem int_tokens_asis_eq_spec signed_ ts : int_tokens_asis signed_ ts = int_tokens_spec signed_ ts.
+Proof.
+  destruct (int_tokens_asis signed_ ts) as [r|] eqn:A.
+  - symmetry. apply int_tokens_asis_complete. exact A.
+  - destruct (int_tokens_spec signed_ ts) as [r|] eqn:S; [|reflexivity].
+    apply int_tokens_spec_sound in S. congruence.
+Qed.
+
 Example int_tokens_spec_nonvacuous :
   int_tokens_spec true [mk_tok TPunct [45]; mk_tok TIdent [97; 51]; mk_tok TIdent t_base; mk_tok TLit [51; 50]]
   = Some (true, [97; 51], Some [51; 50]).
@@ -204,6 +307,195 @@ Proof.
       end;
       match type of H1 with match ?x with _ => _ end => destruct x; [exact H1 | contradiction] end
     end.
+Qed.
+
+(** the converse for fractions: one inversion lemma per state of the repaired loop *)
+Lemma value_not_sign t : is_value_tok t = true -> is_sign_tok t = false /\ is_punct_char t 126 = false /\ is_punct_char t 47 = false.
+Proof. destruct t as [[] x]; cbn; intros H; try discriminate; auto. Qed.
+
+(* before the numerator *)
+Lemma rat_step_P st' rel ns nneg t :
+  rat_step (mk_rst None nneg ns None false false false rel false None) t = Some st' ->
+  (is_value_tok t = true /\ st' = mk_rst (Some (ttext t)) nneg ns None false false false rel false None) \/
+  (rel = false /\ is_punct_char t 126 = true /\ st' = mk_rst None nneg ns None false false false true false None) \/
+  (ns = false /\ is_punct_char t 126 = false /\ is_punct_char t 45 = true /\ st' = mk_rst None true true None false false false rel false None) \/
+  (ns = false /\ is_punct_char t 126 = false /\ is_punct_char t 45 = false /\ is_punct_char t 43 = true /\
+   st' = mk_rst None nneg true None false false false rel false None).
+Proof.
+  destruct t as [k x]. unfold rat_step, is_value_tok, is_punct_char, is_char. cbn [tk ttext].
+  destruct k; try discriminate.
+  - intros H. inversion H. left. auto.
+  - intros H. inversion H. left. auto.
+  - destruct (text_eqb x [47]); [discriminate|]. destruct (text_eqb x [126]).
+    + destruct rel; cbn [negb]; [discriminate|]. intros H. inversion H. right. left. auto.
+    + destruct ns; [discriminate|]. destruct (text_eqb x [45]).
+      * intros H. inversion H. right. right. left. auto.
+      * destruct (text_eqb x [43]); [|discriminate]. intros H. inversion H. right. right. right. auto.
+Qed.
+
+(* after the numerator: only the slash *)
+Lemma rat_step_N st' nt nneg ns rel t :
+  rat_step (mk_rst (Some nt) nneg ns None false false false rel false None) t = Some st' ->
+  is_punct_char t 47 = true /\ st' = mk_rst (Some nt) nneg ns None false false true rel false None.
+Proof.
+  destruct t as [k x]. unfold rat_step, is_punct_char, is_char. cbn [tk ttext negb andb].
+  destruct k; try discriminate. destruct (text_eqb x [47]); [intros H; inversion H; auto|].
+  destruct (text_eqb x [126]); discriminate.
+Qed.
+
+(* after the slash *)
+Lemma rat_step_D st' nt nneg ns dneg ds rel t :
+  rat_step (mk_rst (Some nt) nneg ns None dneg ds true rel false None) t = Some st' ->
+  (is_value_tok t = true /\ st' = mk_rst (Some nt) nneg ns (Some (ttext t)) dneg ds true rel false None) \/
+  (ds = false /\ is_punct_char t 45 = true /\ st' = mk_rst (Some nt) nneg ns None true true true rel false None) \/
+  (ds = false /\ is_punct_char t 45 = false /\ is_punct_char t 43 = true /\ st' = mk_rst (Some nt) nneg ns None dneg true true rel false None).
+Proof.
+  destruct t as [k x]. unfold rat_step, is_value_tok, is_punct_char, is_char. cbn [tk ttext negb andb].
+  destruct k; try discriminate.
+  - intros H. inversion H. left. auto.
+  - intros H. inversion H. left. auto.
+  - destruct (text_eqb x [47]); [discriminate|]. destruct (text_eqb x [126]); [discriminate|].
+    destruct ds; [discriminate|]. destruct (text_eqb x [45]).
+    + intros H. inversion H. right. left. auto.
+    + destruct (text_eqb x [43]); [|discriminate]. intros H. inversion H. right. right. auto.
+Qed.
+
+(* after the denominator: only `base` *)
+Lemma rat_step_T st' nt nneg ns d dneg ds rel t :
+  rat_step (mk_rst (Some nt) nneg ns (Some d) dneg ds true rel false None) t = Some st' ->
+  is_base_tok t = true /\ st' = mk_rst (Some nt) nneg ns (Some d) dneg ds true rel true None.
+Proof.
+  destruct t as [k x]. unfold rat_step, is_base_tok, is_char. cbn [tk ttext negb andb].
+  destruct k; try discriminate.
+  - destruct (text_eqb x t_base); [|discriminate]. intros H. inversion H. auto.
+  - destruct (text_eqb x [47]); [discriminate|]. destruct (text_eqb x [126]); discriminate.
+Qed.
+
+(* after `base`: only the radix literal; after the radix: nothing *)
+Lemma rat_step_B st' nt nneg ns d dneg ds rel t :
+  rat_step (mk_rst (Some nt) nneg ns (Some d) dneg ds true rel true None) t = Some st' ->
+  is_lit_tok t = true /\ st' = mk_rst (Some nt) nneg ns (Some d) dneg ds true rel true (Some (ttext t)).
+Proof.
+  destruct t as [k x]. unfold rat_step, is_lit_tok, is_char. cbn [tk ttext negb andb].
+  destruct k; try discriminate.
+  - intros H. inversion H. auto.
+  - destruct (text_eqb x [47]); [discriminate|]. destruct (text_eqb x [126]); discriminate.
+Qed.
+
+Lemma rat_step_done nt nneg ns d dneg ds rel b t :
+  rat_step (mk_rst (Some nt) nneg ns (Some d) dneg ds true rel true (Some b)) t = None.
+Proof.
+  destruct t as [k x]. unfold rat_step, is_char. cbn [tk ttext negb andb].
+  destruct k; try reflexivity. destruct (text_eqb x [47]); [reflexivity|]. destruct (text_eqb x [126]); reflexivity.
+Qed.
+
+Lemma rat_tail_complete nt nneg ns d dneg ds rel tail st' r :
+  rat_loop (mk_rst (Some nt) nneg ns (Some d) dneg ds true rel false None) tail = Some st' ->
+  rat_finish st' = Some r ->
+  exists b, rat_tail_spec tail = Some b /\ r = (rel, nneg, nt, Some (dneg, d), b).
+Proof.
+  intros L F. destruct tail as [|t1 tl].
+  - cbn [rat_loop] in L. inversion L; subst st'. cbn in F. inversion F. exists None. auto.
+  - cbn [rat_loop] in L. destruct (rat_step _ t1) as [s1|] eqn:E1; [|discriminate].
+    destruct (rat_step_T _ _ _ _ _ _ _ _ _ E1) as [B1 ->]. destruct tl as [|t2 tl].
+    + cbn [rat_loop] in L. inversion L; subst st'. discriminate.
+    + cbn [rat_loop] in L. destruct (rat_step _ t2) as [s2|] eqn:E2; [|discriminate].
+      destruct (rat_step_B _ _ _ _ _ _ _ _ _ E2) as [L2 ->]. destruct tl as [|t3 tl].
+      * cbn [rat_loop] in L. inversion L; subst st'. cbn in F. inversion F.
+        exists (Some (ttext t2)). unfold rat_tail_spec. rewrite B1, L2. auto.
+      * cbn [rat_loop] in L. rewrite rat_step_done in L. discriminate.
+Qed.
+
+Lemma rat_rest_complete nt nneg ns rel rest st' r :
+  rat_loop (mk_rst (Some nt) nneg ns None false false false rel false None) rest = Some st' ->
+  rat_finish st' = Some r -> rat_rest_spec rel nneg nt rest = Some r.
+Proof.
+  intros L F. unfold rat_rest_spec. destruct rest as [|t1 rest].
+  - cbn [rat_loop] in L. inversion L; subst st'. cbn in F. exact F.
+  - cbn [rat_loop] in L. destruct (rat_step _ t1) as [s1|] eqn:E1; [|discriminate].
+    destruct (rat_step_N _ _ _ _ _ _ E1) as [P1 ->]. rewrite P1.
+    destruct rest as [|t2 rest].
+    + cbn [rat_loop] in L. inversion L; subst st'. discriminate.
+    + cbn [rat_loop] in L. destruct (rat_step _ t2) as [s2|] eqn:E2; [|discriminate]. cbn [strip_one].
+      destruct (rat_step_D _ _ _ _ _ _ _ _ E2) as [[V2 ->]|[(_ & P2 & ->)|(_ & P45 & P2 & ->)]].
+      * destruct (value_not_sign t2 V2) as (NS & _). rewrite NS, V2.
+        destruct (rat_tail_complete _ _ _ _ _ _ _ _ _ _ L F) as [b [Tb ->]]. rewrite Tb. reflexivity.
+      * assert (S2 : is_sign_tok t2 = true) by (unfold is_sign_tok; rewrite P2; reflexivity). rewrite S2, P2.
+        destruct rest as [|t3 rest]; [cbn [rat_loop] in L; inversion L; subst st'; discriminate|].
+        cbn [rat_loop] in L. destruct (rat_step _ t3) as [s3|] eqn:E3; [|discriminate].
+        destruct (rat_step_D _ _ _ _ _ _ _ _ E3) as [[V3 ->]|[(A & _)|(A & _)]]; try discriminate.
+        rewrite V3. destruct (rat_tail_complete _ _ _ _ _ _ _ _ _ _ L F) as [b [Tb ->]]. rewrite Tb. reflexivity.
+      * assert (S2 : is_sign_tok t2 = true) by (unfold is_sign_tok; rewrite P2; apply orb_true_r). rewrite S2, P45.
+        destruct rest as [|t3 rest]; [cbn [rat_loop] in L; inversion L; subst st'; discriminate|].
+        cbn [rat_loop] in L. destruct (rat_step _ t3) as [s3|] eqn:E3; [|discriminate].
+        destruct (rat_step_D _ _ _ _ _ _ _ _ E3) as [[V3 ->]|[(A & _)|(A & _)]]; try discriminate.
+        rewrite V3. destruct (rat_tail_complete _ _ _ _ _ _ _ _ _ _ L F) as [b [Tb ->]]. rewrite Tb. reflexivity.
+Qed.
+
+(* the grammar's reading of the five admissible prefixes *)
+Definition tT : token := mk_tok TPunct [126].
+Definition tM : token := mk_tok TPunct [45].
+Definition tP : token := mk_tok TPunct [43].
+
+Lemma spec_p0 n rest : is_value_tok n = true -> rat_tokens_spec (n :: rest) = rat_rest_spec false false (ttext n) rest.
+Proof. intros V. destruct n as [[] x]; try discriminate V; reflexivity. Qed.
+Lemma spec_pT n rest : is_value_tok n = true -> rat_tokens_spec (tT :: n :: rest) = rat_rest_spec true false (ttext n) rest.
+Proof. intros V. destruct n as [[] x]; try discriminate V; reflexivity. Qed.
+Lemma spec_pM n rest : is_value_tok n = true -> rat_tokens_spec (tM :: n :: rest) = rat_rest_spec false true (ttext n) rest.
+Proof. intros V. destruct n as [[] x]; try discriminate V; reflexivity. Qed.
+Lemma spec_pP n rest : is_value_tok n = true -> rat_tokens_spec (tP :: n :: rest) = rat_rest_spec false false (ttext n) rest.
+Proof. intros V. destruct n as [[] x]; try discriminate V; reflexivity. Qed.
+Lemma spec_pTM n rest : is_value_tok n = true -> rat_tokens_spec (tT :: tM :: n :: rest) = rat_rest_spec true true (ttext n) rest.
+Proof. intros V. destruct n as [[] x]; try discriminate V; reflexivity. Qed.
+Lemma spec_pTP n rest : is_value_tok n = true -> rat_tokens_spec (tT :: tP :: n :: rest) = rat_rest_spec true false (ttext n) rest.
+Proof. intros V. destruct n as [[] x]; try discriminate V; reflexivity. Qed.
+Lemma spec_pMT n rest : is_value_tok n = true -> rat_tokens_spec (tM :: tT :: n :: rest) = rat_rest_spec true true (ttext n) rest.
+Proof. intros V. destruct n as [[] x]; try discriminate V; reflexivity. Qed.
+Lemma spec_pPT n rest : is_value_tok n = true -> rat_tokens_spec (tP :: tT :: n :: rest) = rat_rest_spec true false (ttext n) rest.
+Proof. intros V. destruct n as [[] x]; try discriminate V; reflexivity. Qed.
+
+(* the next token of an accepted literal, from a state before the numerator *)
+Ltac next_tok L F ts t E :=
+  destruct ts as [|t ts]; [cbn [rat_loop] in L; inversion L; subst; cbn in F; discriminate F|];
+  cbn [rat_loop] in L;
+  match type of L with match rat_step ?st t with _ => _ end = _ => destruct (rat_step st t) eqn:E; [|discriminate L] end.
+
+Theorem rat_tokens_asis_complete ts r : rat_tokens_asis ts = Some r -> rat_tokens_spec ts = Some r.
+Proof.
+  unfold rat_tokens_asis. destruct (rat_loop rst0 ts) as [st|] eqn:L; [|discriminate]. intros F. unfold rst0 in L.
+  next_tok L F ts t1 E1.
+  destruct (rat_step_P _ _ _ _ _ E1) as [[V1 ->]|[(_ & T1 & ->)|[(_ & _ & M1 & ->)|(_ & _ & _ & P1 & ->)]]].
+  - rewrite (spec_p0 _ _ V1). exact (rat_rest_complete _ _ _ _ _ _ _ L F).
+  - apply punct_inv in T1. subst t1. fold tT. next_tok L F ts t2 E2.
+    destruct (rat_step_P _ _ _ _ _ E2) as [[V2 ->]|[(A & _)|[(_ & _ & M2 & ->)|(_ & _ & _ & P2 & ->)]]]; try discriminate.
+    + rewrite (spec_pT _ _ V2). exact (rat_rest_complete _ _ _ _ _ _ _ L F).
+    + apply punct_inv in M2. subst t2. fold tM. next_tok L F ts t3 E3.
+      destruct (rat_step_P _ _ _ _ _ E3) as [[V3 ->]|[(A & _)|[(A & _)|(A & _)]]]; try discriminate.
+      rewrite (spec_pTM _ _ V3). exact (rat_rest_complete _ _ _ _ _ _ _ L F).
+    + apply punct_inv in P2. subst t2. fold tP. next_tok L F ts t3 E3.
+      destruct (rat_step_P _ _ _ _ _ E3) as [[V3 ->]|[(A & _)|[(A & _)|(A & _)]]]; try discriminate.
+      rewrite (spec_pTP _ _ V3). exact (rat_rest_complete _ _ _ _ _ _ _ L F).
+  - apply punct_inv in M1. subst t1. fold tM. next_tok L F ts t2 E2.
+    destruct (rat_step_P _ _ _ _ _ E2) as [[V2 ->]|[(_ & T2 & ->)|[(A & _)|(A & _)]]]; try discriminate.
+    + rewrite (spec_pM _ _ V2). exact (rat_rest_complete _ _ _ _ _ _ _ L F).
+    + apply punct_inv in T2. subst t2. fold tT. next_tok L F ts t3 E3.
+      destruct (rat_step_P _ _ _ _ _ E3) as [[V3 ->]|[(A & _)|[(A & _)|(A & _)]]]; try discriminate.
+      rewrite (spec_pMT _ _ V3). exact (rat_rest_complete _ _ _ _ _ _ _ L F).
+  - apply punct_inv in P1. subst t1. fold tP. next_tok L F ts t2 E2.
+    destruct (rat_step_P _ _ _ _ _ E2) as [[V2 ->]|[(_ & T2 & ->)|[(A & _)|(A & _)]]]; try discriminate.
+    + rewrite (spec_pP _ _ V2). exact (rat_rest_complete _ _ _ _ _ _ _ L F).
+    + apply punct_inv in T2. subst t2. fold tT. next_tok L F ts t3 E3.
+      destruct (rat_step_P _ _ _ _ _ E3) as [[V3 ->]|[(A & _)|[(A & _)|(A & _)]]]; try discriminate.
+      rewrite (spec_pPT _ _ V3). exact (rat_rest_complete _ _ _ _ _ _ _ L F).
+Qed.
+
+(** the repaired loop of parse_ratio_with_error accepts exactly the fraction grammar *)
+Theorem rat_tokens_asis_eq_spec ts : rat_tokens_asis ts = rat_tokens_spec ts.
+Proof.
+  destruct (rat_tokens_asis ts) as [r|] eqn:A.
+  - symmetry. apply rat_tokens_asis_complete. exact A.
+  - destruct (rat_tokens_spec ts) as [r|] eqn:S; [|reflexivity].
+    apply rat_tokens_spec_sound in S. congruence.
 Qed.
 
 Example rat_tokens_spec_nonvacuous :
